@@ -70,10 +70,13 @@ ScnSendReq(L, s, when) ==
 ScnSendResp(L, s, t, when) ==
     \* the server answers a delivered request with a response of size s and trailers of size t
     LET set == SettingsStep("server", L) IN
-    [part |-> "S", kind |-> "response", role |-> "server", size |-> s, tsize |-> t, limit |-> L, when |-> when, cfg |-> [grease |-> FALSE],
+    \* (batch: the server answers each request before it polls accept() again)
+    [part |-> "S", kind |-> "response", role |-> "server", size |-> s, tsize |-> t, limit |-> L, when |-> when, cfg |-> [grease |-> FALSE, inline_handlers |-> (when = "batch")],
      default_handler |-> <<[op |-> "resolve"], [op |-> "send_response", status |-> 200, fields |-> Extra1(s, 42)],
-                           [op |-> "send_trailers", fields |-> Extra1(t, 0)], [op |-> "hold"]>>,
-     steps |-> (IF when = "before" THEN <<set>> ELSE <<>>) \o <<[op |-> "deliver", sid |-> 0, bytes |-> Frame(1, Sec(ReqBase))], [op |-> "fin", sid |-> 0]>>]
+                           [op |-> "send_trailers", fields |-> Extra1(t, 0)]>> \o (IF when = "batch" THEN <<[op |-> "finish"]>> ELSE <<[op |-> "hold"]>>),
+     \* "batch": the peer's SETTINGS and the request are both waiting when the endpoint runs for the first time
+     steps |-> (CASE when = "before" -> <<set>> [] when = "batch" -> <<[op |-> "deliver", sid |-> 2, bytes |-> set.bytes, no_run |-> TRUE]>> [] OTHER -> <<>>)
+               \o <<[op |-> "deliver", sid |-> 0, bytes |-> Frame(1, Sec(ReqBase)), no_run |-> (when = "batch")], [op |-> "fin", sid |-> 0]>>]
 ScnSendReqTrailers(L, t, when) ==
     LET set == SettingsStep("client", L) IN
     [part |-> "S", kind |-> "reqtrailers", role |-> "client", size |-> 167, tsize |-> t, limit |-> L, when |-> when, cfg |-> [grease |-> FALSE],
@@ -110,6 +113,7 @@ Next == /\ out = <<>>
            \/ \E L \in LimitsR : \E s \in SweepT(L), when \in {"before", "never", "during"} : out' = ScnSendReq(L, s, when)
            \/ \E L \in {0, 1, 166, 167, 168} : \E when \in {"before", "during"} : out' = ScnSendReq(L, 200, when)
            \/ \E L \in ({100} \cup LimitsR) : \E s \in SweepT(L), when \in {"before", "never"} : s >= 75 /\ out' = ScnSendResp(L, s, 40, when)
+           \/ \E L \in {100, 207} : \E s \in Sweep(L) : s >= 75 /\ out' = ScnSendResp(L, s, 40, "batch")
            \/ \E L \in {41, 100} : \E t \in Sweep(L), when \in {"before", "never"} : t >= 33 /\ out' = ScnSendResp(L, 75, t, when)
            \/ \E L \in {200} : \E t \in Sweep(L), when \in {"before", "never"} : t >= 33 /\ out' = ScnSendReqTrailers(L, t, when)
 Spec == Init /\ [][Next]_out
